@@ -94,6 +94,12 @@ func cmdVerify(args []string) {
 	}
 	if *dump != "" {
 		for _, o := range all {
+			if o.Name == *dump {
+				fmt.Print(o.query(true))
+				return
+			}
+		}
+		for _, o := range all {
 			if strings.Contains(o.Name, *dump) {
 				fmt.Print(o.query(true))
 				return
